@@ -120,7 +120,7 @@ def snapshotApply (enabledName : Option String) (below : Below) : Except DefErr 
   match enabledName with
   | none => .ok below                    -- disabled: `return func`
   | some n =>
-    if !below.hasChecker then
+    if !below.hasChecker || below.nPosts == 0 then
       .error (.valueError "You are decorating a function with a snapshot, but no postcondition was defined on the function before.")
     else if below.snapNames.contains n then
       .error (.valueError "There are conflicting snapshots with the name")
